@@ -13,8 +13,9 @@ import (
 
 func init() {
 	register(&Check{
-		ID:    "C02",
-		Level: "exploration",
+		ID:        "C02",
+		DeepQuick: true,
+		Level:     "exploration",
 		Rule: "all ordered pairs of the number alphabet (value text x mantissa precision x constructor) x 9 binary numeric operations, all numbers x 2 unary ones, all boolean tuples, " +
 			"and every container (list, set, map, tuple, object) built from every member sequence of length 0..3 over per-type member alphabets x every key of the key alphabet; " +
 			"reference = exact big.Rat arithmetic / plain Go slices and maps; distinct by operation and operand GoStrings; non-trivial = all cases (each has a computed expected result or expected rejection)",
